@@ -66,6 +66,13 @@ def run(pid, tier, seed, njobs=None):
            "samples": [{"len": distinct[0]["ev"][-1]["len"], "items": distinct[0]["ev"][-1]["items"][:5]}] if distinct else [],
            "observations": nobs, "outcomes": outcomes, "rejected": len(v["rejected"]),
            "tlc_trace_validation": {"states": v["states"], "distinct": v["distinct"], "wall_s": round(v["wall"], 1)}}
+    # step-level conformance with Flurry.tla: the specification's own actions replayed along recorded executions
+    import stepconf
+    sc = stepconf.leg(pid, tier, seed, verdict, n=(120 if tier == "quick" else 1200))
+    cov["step_conformance"] = sc
+    cov["states"] = cov.get("states", 0) + sc["tlc_states"]
+    cov["transitions"] = cov.get("transitions", 0) + sc["tlc_states"]
+    cov["traces_validated_against_impl"] = cov.get("traces_validated_against_impl", 0) + sc["accepted"]
     lib.add_spec_coverage(cov, pid, tier)
     rc = verdict.finish()
     lib.write_evidence(pid, tier, seed, "model_checking", cov, time.time() - t0, len(verdict.violations),
